@@ -95,10 +95,10 @@ ShapeOK(b, i, s, ord, d) ==
   /\ (s = 0 => ord = "is")
 DispMags == { <<1,0,0,0>>, <<127,0,0,0>>, <<128,0,0,0>>, <<129,0,0,0>>, <<255,0,0,0>>, <<0,1,0,0>>,
               <<255,127,0,0>>, <<0,128,0,0>>, <<255,255,255,127>>, <<120,86,52,18>>, <<239,205,171,9>> }
-DispAll == {NoD, D(FALSE, <<0,0,0,0>>, "hex"), D(TRUE, <<0,0,0,128>>, "hex")}
+DispAll == {NoD, D(FALSE, <<0,0,0,0>>, "hex"), D(TRUE, <<0,0,0,128>>, "hex"), D(TRUE, <<0,0,0,0>>, "hex"), D(TRUE, <<0,0,0,0>>, "dec")}      \* (also "-0x0" and "-0")
            \cup {D(n, m, "hex") : n \in BOOLEAN, m \in DispMags}
            \cup {D(n, m, "dec") : n \in BOOLEAN, m \in {<<8,0,0,0>>, <<127,0,0,0>>, <<128,0,0,0>>, <<16,39,0,0>>}}
-DispFew == {NoD, D(FALSE, <<16,0,0,0>>, "hex"), D(TRUE, <<128,0,0,0>>, "hex"), D(FALSE, <<69,35,1,0>>, "hex")}
+DispFew == {NoD, D(FALSE, <<16,0,0,0>>, "hex"), D(TRUE, <<128,0,0,0>>, "hex"), D(FALSE, <<69,35,1,0>>, "hex"), D(TRUE, <<0,0,0,0>>, "hex")}
 \* (A) every base x every index at every scale, few displacements
 ShapesA(a) == { Mem("", 0, a, b, i, s, ord, d) : b \in -1..15, i \in -1..15, s \in {0, 1, 2, 4, 8}, ord \in {"is", "si"}, d \in DispFew }
 \* (B) the special registers at every scale and order with every displacement
@@ -248,6 +248,7 @@ MemD == { Mem("", 0, 64, 0, -1, 0, "is", D(FALSE, <<16,0,0,0>>, "hex")), Mem("",
           Mem("", 0, 64, 9, 1, 4, "is", NoD), Mem("", 0, 64, 0, -1, 0, "is", NoD) }
 C03_All(zz) ==
      { L3(mn, <<G(w, n), v>>) : mn \in Alu \cup {"test", "mov"}, w \in {8, 16, 32, 64}, n \in {0, 1, 9}, v \in ImmVals }
+\cup { L3(mn, <<H(n), v>>) : mn \in Alu \cup {"test", "mov"}, n \in 4..7, v \in {x \in ImmVals : x.radix = "hex"} }        \* ah ch dh bh
 \cup { L3("mov", <<G(64, n), v>>) : n \in {0, 3, 12}, v \in ImmVals16d }
 \* ... and with 13, 14, 15 digits: one and two short of "zero padded to 64 bits exactly" (SMART still narrows)
 \cup { L3("mov", <<G(64, n), Im(FALSE, m, "hex", dg)>>) : n \in {0, 12}, dg \in {13, 14, 15}, m \in {x \in ImmMags : x[5] = 0 /\ x[6] = 0 /\ x[7] = 0 /\ x[8] = 0} }
